@@ -60,20 +60,57 @@ func nativeReplay(runs []replayRun) ([]replayOut, error) {
 	defer os.Remove(outName)
 	defer os.Remove(ovName)
 	// the harness package directory is virtual (overlay), so the test binary is built with
-	// `go test -c` and run directly
+	// `go test -c` and run directly. C08 replays run real goroutines under the race detector.
+	race := len(runs) > 0 && runs[0].Prop == "C08"
 	binName := strings.Replace(inF.Name(), "replay-in-", "replay-bin-", 1)
 	defer os.Remove(binName)
 	t0 := time.Now()
-	bc := exec.Command("go", "test", "-c", "-vet=off", "-overlay", ovName, "-o", binName, "./zzverif/h")
+	args := []string{"test", "-c", "-vet=off", "-overlay", ovName, "-o", binName}
+	if race {
+		args = append(args, "-race")
+	}
+	args = append(args, "./zzverif/h")
+	bc := exec.Command("go", args...)
 	bc.Dir = repoDir
 	bc.Env = goEnv()
 	if bout, err := bc.CombinedOutput(); err != nil {
 		return nil, fmt.Errorf("building the native replay binary failed: %v: %s", err, tail(string(bout), 1500))
 	}
-	cmd := exec.Command(binName, "-test.run", "^TestZZReplay$", "-test.timeout", "20m")
-	cmd.Dir = workDir
-	cmd.Env = append(goEnv(), "ZZVERIF_REPLAY_IN="+inF.Name(), "ZZVERIF_REPLAY_OUT="+outName)
-	outb, err := cmd.CombinedOutput()
+	runBin := func(in, out string) (string, error) {
+		cmd := exec.Command(binName, "-test.run", "^TestZZReplay$", "-test.timeout", "20m")
+		cmd.Dir = workDir
+		cmd.Env = append(goEnv(), "ZZVERIF_REPLAY_IN="+in, "ZZVERIF_REPLAY_OUT="+out)
+		b, err := cmd.CombinedOutput()
+		return string(b), err
+	}
+	if race {
+		// one process per run, so that a race report can be attributed to it
+		var outs []replayOut
+		for i := range runs {
+			one, _ := json.Marshal(runs[i : i+1])
+			os.WriteFile(inF.Name(), one, 0o644)
+			os.Remove(outName)
+			text, _ := runBin(inF.Name(), outName)
+			var o []replayOut
+			if ob, err := os.ReadFile(outName); err == nil {
+				json.Unmarshal(ob, &o)
+			}
+			if len(o) != 1 {
+				o = []replayOut{{Panic: "replay process failed: " + tail(text, 300)}}
+			}
+			if strings.Contains(text, "WARNING: DATA RACE") {
+				if runs[i].Mode == "violation" {
+					o[0].Matched = true
+				} else {
+					o[0].Matched = false
+				}
+				o[0].Panic = "DATA RACE reported by the race detector: " + raceSummary(text)
+			}
+			outs = append(outs, o[0])
+		}
+		return outs, nil
+	}
+	outb, err := runBin(inF.Name(), outName)
 	ob, rerr := os.ReadFile(outName)
 	if rerr != nil {
 		return nil, fmt.Errorf("go test failed (%v) after %v: %s", err, time.Since(t0), tail(string(outb), 1500))
@@ -86,6 +123,17 @@ func nativeReplay(runs []replayRun) ([]replayOut, error) {
 		return outs, fmt.Errorf("replay returned %d results for %d runs: %s", len(outs), len(runs), tail(string(outb), 800))
 	}
 	return outs, nil
+}
+
+func raceSummary(text string) string {
+	var keep []string
+	for _, l := range strings.Split(text, "\n") {
+		t := strings.TrimSpace(l)
+		if strings.HasPrefix(t, "github.com/Oudwins/zog") && len(keep) < 4 {
+			keep = append(keep, t)
+		}
+	}
+	return strings.Join(keep, " | ")
 }
 
 func tail(s string, n int) string {
